@@ -24,7 +24,8 @@ def exc_name(e):
 S_OPS = ['connect /', 'connect /a auth', 'connect unserved', 'connect refused', 'event', 'event+id', 'binary event+id',
          'event unknown', 'ack known', 'ack unknown', 'ack duplicate', 'client disconnect', 'malformed', 'stray binary',
          'emit room', 'emit sid callback', 'emit sid raising-callback', 'enter', 'leave', 'close', 'server disconnect',
-         'session', 'loss e1', 'event on class namespace', 'call', 'emit room callback skip']
+         'session', 'loss e1', 'event on class namespace', 'call', 'emit room callback skip', 'emit unserialisable',
+         'emit unserialisable callback']
 
 
 def run_server(asyncio_, plan, classns):
@@ -147,6 +148,11 @@ def run_server(asyncio_, plan, classns):
                 for p in worlds.decode_frames(w.P, w.frames('e0')):
                     if not isinstance(p, tuple) and p.packet_type == packet.EVENT and p.id is not None:
                         cb_ids[p.id] = True
+        elif name == 'emit unserialisable':
+            api('emit-bad', lambda: w.s.emit('news', {'ids': {1, 2}}, room='room'))
+        elif name == 'emit unserialisable callback':
+            if s0:
+                api('emit-bad-cb', lambda: w.s.emit('q', {'ids': {1, 2}}, to=s0, callback=cb(False)))
         elif name == 'enter':
             if s0:
                 api('enter', lambda: w.s.enter_room(s0, 'room'))
